@@ -21,6 +21,39 @@ class OpaqueStr(Value):
         return OpaqueStr()
 
 
+class SymDict(Value):
+    """a dict literal whose keys are symbolic scalars: lookups are if-then-else chains (a later equal key wins)"""
+
+    def __init__(self, pairs):
+        self.pairs = list(pairs)
+
+    def lookup(self, interp, key, default=None, has_default=False):
+        hit = z_or(*[z_eq(key, k) for k, _ in self.pairs])
+        if not has_default:
+            if not interp.run.branch(hit):
+                interp.raise_('KeyError', key)
+            res = self.pairs[-1][1]
+            rest = self.pairs[:-1]
+        else:
+            res = default
+            rest = self.pairs
+        for k, v in rest if has_default else rest:
+            res = z_ite(z_eq(key, k), v, res) if not isinstance(z_eq(key, k), bool) else (v if z_eq(key, k) else res)
+        if not has_default:
+            # the last pair was the base case: re-apply it on top (a later equal key wins)
+            k, v = self.pairs[-1]
+            res = z_ite(z_eq(key, k), v, res) if not isinstance(z_eq(key, k), bool) else (v if z_eq(key, k) else res)
+        return res
+
+    def py_getitem(self, interp, key):
+        return self.lookup(interp, key)
+
+    def py_getattr(self, interp, name):
+        if name == 'get':
+            return PyFunc(lambda interp, k, d=None: self.lookup(interp, k, d, True), 'dict.get')
+        raise Unsupported(f'dict.{name} on a dict with symbolic keys')
+
+
 class GenV(Value):
     """result of a generator expression: a list of values or an SSeq"""
 
@@ -509,7 +542,7 @@ def builtin_getattr(interp, v, name):
         if name == 'count':
             def count(interp, x):
                 # s.count(x) for a sequence of symbolic length: a fresh integer characterised for the values 0, 1, >= 2
-                if v.kind == 'str':
+                if v.kind == 'str' and isinstance(x, (str, SSeq)):
                     sub = SSeq.lift(x)
                     if concrete(sub.length) != 1:
                         raise Unsupported('str.count of a multi-character pattern')
